@@ -207,6 +207,8 @@ pub fn run(tier: Tier) -> i32 {
     let seed = ctx.seed;
     let mut tally = ctx.par(16, |s| shard(seed, s, tier));
     taxonomy_table(&mut tally);
+    // thorough: coverage-guided workload (libFuzzer) with every monitor as the oracle
+    let san = crate::run::fold_sanitizer_results(&mut tally, false);
     if let Err(e) = &pre {
         tally.inconclusive.push(e.clone());
     }
@@ -235,6 +237,9 @@ pub fn run(tier: Tier) -> i32 {
     }
     ctx.gate("pair-matrix cells (earlier check, later check, carrier) observed often enough", total - missing, total);
     ctx.gate("taxonomy rows checked on directly constructed errors", tally.get("taxonomy_rows_checked"), 12);
+    if tier == Tier::Thorough {
+        ctx.gate("coverage-guided (libFuzzer) agreement run clean", tally.get("sanitizer/fuzz/clean"), 1);
+    }
     ctx.exhaustive("all single defects and all pairs of the injector catalogue, per carrier", true);
     ctx.exhaustive("all 12 SignatureError variants: (code, status) table and conversions", true);
     let rep = Report {
@@ -247,7 +252,7 @@ pub fn run(tier: Tier) -> i32 {
             "checks of equal rank (URL query vs folded-body decoding; several missing parameters) are accepted in either order".into(),
             "message discriminators are the substrings the crate's own suite already pins".into(),
         ],
-        extra: J::obj().set("cells_below_threshold", cells).set("calibrated_vectors", J::i(pre.unwrap_or(0) as i64)),
+        extra: J::obj().set("cells_below_threshold", cells).set("calibrated_vectors", J::i(pre.unwrap_or(0) as i64)).set("coverage_guided", san),
     };
     finish(&ctx, tally, rep)
 }
